@@ -94,7 +94,7 @@ def join_everything_in_dependency_order(ctx):
                f'code on the {a} stage submits to the {b} stage: joining {b} first lets it receive work after its join')
 
 
-@rule('C18.c', ['C18'], floor=2)
+@rule('C18.c', ['C18', 'C15'], floor=2)
 def per_transfer_state(ctx):
     """Objects created per transfer are not stored on the manager, a class or a module;
     only the frozen inventory of manager attributes is handed to tasks; no function of
